@@ -7,7 +7,8 @@ LEVEL = 'proof'
 ASSUMPTIONS = ["expected documentation per DESIGN.md appendix A.6: the group of comments (each starting on the line where the previous one ended or on the next line) whose last comment ends on the line directly above the item, provided the group does not start on the line of a preceding token; otherwise none",
                "placements generated: attached group, detached group (blank line), trailing comment on the previous item's last line, comment inside the previous body on the line above, none, and detached+attached; at any line including the first three"]
 
-PLACEMENTS = ['none', 'none', 'attached', 'attached', 'detached', 'trailing', 'trailing-multi', 'detached+attached', 'attached-general', 'attached-multiline-general']
+PLACEMENTS = ['none', 'none', 'attached', 'attached', 'detached', 'trailing', 'trailing-multi', 'detached+attached', 'attached-general', 'attached-multiline-general',
+              'trailing+attached', 'trailing+attached']
 
 
 class Doc:
@@ -24,6 +25,14 @@ class Doc:
         """emit the comments that precede an item according to `kind`; return the expected docs"""
         r = self.rng
         exp = []
+        if kind == 'trailing+attached':
+            # a comment trailing the previous item's last line, and the item's own group starting on the very next line:
+            # the trailing comment belongs to the previous item, the group to this one
+            ok = bool(self.lines) and self.lines[-1].strip() and '//' not in self.lines[-1] and not self.lines[-1].rstrip().endswith('*/')
+            if ok: self.lines[-1] += ' ' + self.comment()
+            for _ in range(r.randint(1, 2)):
+                c = self.comment(r.random() < 0.25); self.lines.append(indent + c); exp.append(c)
+            return exp
         if kind == 'trailing':
             if self.lines and self.lines[-1].strip() and '//' not in self.lines[-1] and not self.lines[-1].rstrip().endswith('*/'):
                 self.lines[-1] += ' ' + self.comment()
@@ -61,10 +70,15 @@ def gen_file(rng):
     # leading blank lines so that items fall on lines 1, 2, 3, ...
     for _ in range(r.choice([0, 0, 0, 1, 2])): d.lines.append('')
     k = r.choice(PLACEMENTS)
-    if k in ('trailing', 'trailing-multi'): k = 'none'
+    if k in ('trailing', 'trailing-multi', 'trailing+attached'): k = 'none'
     exp = d.place(k)
     d.lines.append('package p')
     targets.append((('file',), exp, k))
+    # imports: not items with documentation of their own here, but a comment above one is pending when the next item comes
+    for ii in range(r.choice([0, 0, 0, 1, 2])):
+        if r.random() < 0.3: d.lines.append('')
+        if r.random() < 0.5: d.lines.append(d.comment(r.random() < 0.2))
+        d.lines.append(f'import "pkg{ii}"' if r.random() < 0.7 else f'import (\n\t"a{ii}"\n\t' + d.comment() + f'\n)')
     ndecl = r.randint(1, 5)
     for di in range(ndecl):
         if r.random() < 0.5: d.lines.append('')
@@ -91,7 +105,7 @@ def gen_file(rng):
             for si in range(r.randint(1, 3)):
                 if r.random() < 0.3: d.lines.append('')
                 k2 = r.choice(PLACEMENTS)
-                if si == 0 and k2 in ('trailing', 'trailing-multi'): k2 = 'none'
+                if si == 0 and k2 in ('trailing', 'trailing-multi', 'trailing+attached'): k2 = 'none'
                 e2 = d.place(k2, '\t')
                 d.lines.append(f'\tc{di}_{si} = {si}')
                 targets.append((('spec', di, 'Const' if kw == 'const' else 'Variable', si), e2, k2))
@@ -102,7 +116,7 @@ def gen_file(rng):
             for fi in range(r.randint(1, 3)):
                 if r.random() < 0.3: d.lines.append('')
                 k2 = r.choice(PLACEMENTS)
-                if k2 in ('trailing', 'trailing-multi'): k2 = 'none'          # a field's own line-end comment is the trailing pattern here
+                if k2 in ('trailing', 'trailing-multi', 'trailing+attached'): k2 = 'none'          # a field's own line-end comment is the trailing pattern here
                 e2 = d.place(k2, '\t')
                 line = f'\tf{fi} int'
                 tr = None
